@@ -1082,17 +1082,17 @@ pub fn run(ck: &mut Check) {
             auth_oracle(&l3, cx)
         });
     }
-    let n = ck.n(120_000, 4_000_000);
+    let n = ck.n(300_000, 4_000_000);
     ck.prop("synthetic_endpoints", n, synth_case, synth_oracle);
     for cls in ["synthetic_request_roundtrip", "reserved_char_in_field", "percent_in_field", "empty_multi_valued_query", "multi_valued_query", "non_200_success_status"] {
         ck.floor("synthetic_endpoints", cls, 2000);
     }
-    let n = ck.n(60_000, 2_000_000);
+    let n = ck.n(150_000, 2_000_000);
     ck.prop("real_endpoints", n, real_case, real_oracle);
     for cls in ["real_client", "real_federation", "real_appservice", "real_push_gateway", "real_error_response", "reserved_char_in_field", "non_200_success_status"] {
         ck.floor("real_endpoints", cls, 500);
     }
-    let n = ck.n(60_000, 2_000_000);
+    let n = ck.n(150_000, 2_000_000);
     ck.prop("x_matrix", n, xm_case, xm_oracle);
     ck.floor("x_matrix", "xmatrix_value", 5000);
     ck.floor("x_matrix", "xmatrix_text_parsed", 200);
